@@ -71,7 +71,8 @@ def main():
             suite=summary[0], suite_failed=failed)
         cres = {}
         for c in checks:
-            e2 = dict(os.environ, VMC_REPO=repo, VMC_NO_EVIDENCE='1')
+            e2 = dict(os.environ, VMC_REPO=repo, VMC_NO_EVIDENCE='1',
+                      VMC_REPLAY_DIR=os.path.join(tmp, 'replays'))
             rc, out = sh('./check %s --tier quick' % c, cwd='/verif', env=e2,
                          timeout=2400)
             msgs = re.findall(r'^VIOLATION .*\n  (.*)', out, re.M)
@@ -97,12 +98,6 @@ def main():
         return 0 if ok else 1
     finally:
         shutil.rmtree(tmp, ignore_errors=True)
-        for f in os.listdir('/verif/replays'):
-            if re.match(r'C\d\d-[0-9a-f]{10}\.json$', f) or f.startswith('trial-'):
-                try:
-                    os.remove(os.path.join('/verif/replays', f))
-                except OSError:
-                    pass
 
 
 if __name__ == '__main__':
